@@ -30,7 +30,7 @@ ASSUMPTIONS = [
     "pyairtouch/comms/udp.py is not reachable from the public API and is not executed",
 ]
 PROBES = ["c18.no_answer_three_requests", "c18.answer_first_interval", "c18.answer_second_interval", "c18.duplicate", "c18.comma_in_name",
-          "c18.invalid_utf8", "c18.wrong_parts", "c18.echo", "c18.late_datagram", "c18.unicast", "c18.both_generations", "c18.at_request_instant", "c18.consoles_sharing_fields"]
+          "c18.second_discovery_same_answers", "c18.invalid_utf8", "c18.wrong_parts", "c18.echo", "c18.late_datagram", "c18.unicast", "c18.both_generations", "c18.at_request_instant", "c18.consoles_sharing_fields"]
 
 REQ = {49004: b"HF-A11ASSISTHREAD", 49005: b"::REQUEST-POLYAIRE-AIRTOUCH-DEVICE-INFO:;"}
 
@@ -128,10 +128,26 @@ def generate(rng, index: int, tier: str) -> dict:
             data, kind = _junk(rng, port)
             at = t0 + G.pick_time(rng, 0.0, 1.6, anchors=[0.0, 0.5, 1.0])
             tl.append({"at": at, "op": "udp.deliver", "port": port, "hex": data.hex(), "junk": kind})
-    tl.append({"at": 0.0, "op": "udp.responders", "responders": responders})
+    warm = rng.random() < 0.12
+    if warm:
+        # an earlier discovery by the same process, answered with the very datagrams the observed one will see again (an
+        # unchanged console always sends the same answer): everything is shifted by three seconds, the earlier search is
+        # not judged
+        shift = 3.0
+        for x in tl:
+            x["at"] += shift
+        t0 += shift
+        seen_hex = sorted({r["hex"] for r in responders} | {x["hex"] for x in tl if x["op"] == "udp.deliver" and not x.get("junk")})
+        ports = {h: next((r["port"] for r in responders if r["hex"] == h), None) or next(x["port"] for x in tl if x.get("hex") == h) for h in seen_hex}
+        tl.append({"at": 0.0, "op": "user.discover", "remote_host": host, "warm": True})
+        for i, h in enumerate(seen_hex):
+            tl.append({"at": 0.125 + i * G.TICK, "op": "udp.deliver", "port": ports[h], "hex": h, "warm": True})
+        tl.append({"at": shift - 0.125, "op": "udp.responders", "responders": responders})
+    else:
+        tl.append({"at": 0.0, "op": "udp.responders", "responders": responders})
     tl.append({"at": t0 + 3.0, "op": "user.init_discovered"})
     tl.sort(key=lambda s: s["at"])
-    return {"gen": 4, "mode": "discover", "knobs": {}, "timeline": tl, "end": t0 + 12.0, "t0": t0, "host": host}
+    return {"gen": 4, "mode": "discover", "knobs": {}, "timeline": tl, "end": t0 + 12.0, "t0": t0, "host": host, "warm": warm}
 
 
 def _classify(port: int, data: bytes):
@@ -164,11 +180,13 @@ def execute(sc: dict) -> dict:
     w.run()
     V = []
     probes = {}
-    call = next((c for c in w.calls if c["op"] == "user.discover"), None)
+    call = next((c for c in w.calls if c["op"] == "user.discover" and not c["step"].get("warm")), None)
     if call is None or call["t_call"] is None:
         return common.result(w, V, nontrivial=False)
     t0 = call["t_call"]
-    ev = w.trace.events
+    ev = [e for e in w.trace.events if e[1] >= t0 - 1e-9]  # (an earlier, unjudged discovery of the same process lies before t0)
+    if sc.get("warm"):
+        probes["c18.second_discovery_same_answers"] = 1
     if sc.get("host"):
         probes["c18.unicast"] = 1
     if call["t_ret"] is None:
